@@ -122,11 +122,94 @@ Definition zip_extra (c : case_C16) : bool :=
 Definition extra_outside (c : case_C16) : bool :=
   negb (zip_extra c) || forallb (fun d => negb (is_none (hd_error (loc_of d)))) (x_map c).
 
+(* ---- "the path layout a schema string describes", decided WITHOUT the model's parser (round 4).
+   A schema string of '/'-separated components, each either literal text or exactly one field
+   {key[:type]}, describes the exported path p of a job with state point sp iff p has the same number
+   of components, the literal components are equal, every field component is the text export writes
+   for sp[key] (str(value)), that value has the field's type and its text lies in the class the property
+   names (word-like strings, integers, plain decimals, booleans), and the fields are exactly the leaves
+   of sp.  In particular the LAST component may be literal ('a/{a:int}/run' describes 'a/3/run'). *)
+Inductive scomp := CLit (s : str) | CField (key : str) (ty : fty).
+Definition comp_of (s : str) : option scomp :=
+  match s with
+  | 123 :: r =>
+      match field_at r with
+      | Some (key, tyn, []) =>
+          match ty_of_name (match tyn with Some n => n | None => S "str" end) with
+          | Some ty => Some (CField key ty)
+          | None => None
+          end
+      | _ => None
+      end
+  | _ => if has_brace s then None else Some (CLit s)
+  end.
+Definition in_class (ty : fty) (t : str) : bool :=
+  let unsigned := match t with 45 :: r => r | _ => t end in
+  match ty with
+  | TyStr => negb (is_empty t) && forallb is_word t
+  | TyInt => negb (is_empty unsigned) && forallb is_digit unsigned
+  | TyFloat =>
+      let '(ip, r1) := span is_digit unsigned in
+      match r1 with
+      | [] => negb (is_empty ip)
+      | 46 :: fp => negb (is_empty fp) && forallb is_digit fp
+      | _ => false
+      end
+  | TyBool => str_eqb t (S "True") || str_eqb t (S "False")
+  end.
+Definition ty_agrees (ty : fty) (v : json) : bool :=
+  match ty, v with
+  | TyStr, JStr _ | TyInt, JInt _ | TyFloat, JFloat _ | TyBool, JBool _ => true
+  | _, _ => false
+  end.
+Definition sp_leaves (sp : json) : list str :=
+  match sp with JObj [] => [] | _ => List.map key_str (dkeys sp []) end.
+Definition field_keys (cs : list (option scomp)) : list str :=
+  flat_map (fun c => match c with Some (CField k _) => [k] | _ => [] end) cs.
+Definition describes (o : oracle) (text path : str) (sp : json) : bool :=
+  let cs := List.map comp_of (split 47 text) in
+  let ps := split 47 path in
+  Nat.eqb (List.length cs) (List.length ps) &&
+  forallb (fun cp => match fst cp with
+                     | Some (CLit l) => str_eqb l (snd cp)
+                     | Some (CField key ty) =>
+                         match get_path sp (split 46 key) with
+                         | Some v => ty_agrees ty v && in_class ty (snd cp)
+                                     && match py_text o false v with ROk t => str_eqb t (snd cp) | _ => false end
+                         | None => false
+                         end
+                     | None => false
+                     end) (combine cs ps) &&
+  negb (has_dup (field_keys cs)) &&
+  forallb (fun k => str_mem k (sp_leaves sp)) (field_keys cs) &&
+  forallb (fun k => str_mem k (field_keys cs)) (sp_leaves sp).
+(* could the schema take this path for a job directory at all (used for the foreign empty directory) *)
+Definition shape_matches (text path : str) : bool :=
+  let cs := List.map comp_of (split 47 text) in
+  let ps := split 47 path in
+  Nat.eqb (List.length cs) (List.length ps) &&
+  forallb (fun cp => match fst cp with
+                     | Some (CLit l) => str_eqb l (snd cp)
+                     | Some (CField _ ty) => in_class ty (snd cp)
+                     | None => true
+                     end) (combine cs ps).
+Definition faithful_by_layout (c : case_C16) (text : str) : bool :=
+  (negb (zip_extra c) || negb (shape_matches text EXTRA)) &&
+  Nat.eqb (List.length (x_map c)) (List.length (c_jobs c)) &&
+  forallb (fun jd => describes (c_oracle c) text (normpath (snd jd)) (j_sp (fst jd))) (combine (c_jobs c) (x_map c)).
+(* the schema string keeps literal text after its last field *)
+Definition trailing_literal (text : str) : bool :=
+  match rev (List.map comp_of (split 47 text)) with
+  | Some (CLit (_ :: _)) :: _ => true
+  | _ => false
+  end.
+
 Definition schema_faithful (c : case_C16) : bool :=
   extra_outside c &&
   match c_schema c with
   | SchNone => negb (c_strip c) || negb (is_none (match c_kind c with KZip => Some tt | _ => None end))
   | SchStr text =>
+      faithful_by_layout c text ||
       match schema_compile text with
       | ROk fields =>
           (* the foreign empty directory, if one was added, is not taken for a job by this schema *)
@@ -195,7 +278,7 @@ Definition sub_sp (a b : json) : bool :=
   | JObj ka, JObj kb => forallb (fun kv => match alookup (fst kv) kb with Some w => sp_same (snd kv) w | None => false end) ka
   | _, _ => false
   end.
-Definition schema_sound (c : case_C16) : bool :=
+Definition schema_rel (rel : json -> json -> bool) (c : case_C16) : bool :=
   extra_outside c &&
   match c_schema c with
   | SchNone => true
@@ -204,7 +287,7 @@ Definition schema_sound (c : case_C16) : bool :=
       | ROk fields =>
           Nat.eqb (List.length (x_map c)) (List.length (c_jobs c)) &&
           forallb (fun jd => match parse_path fields (normpath (snd jd)) with
-                             | ROk (Some sp) => sub_sp sp (j_sp (fst jd))
+                             | ROk (Some sp) => rel sp (j_sp (fst jd))
                              | ROk None => true
                              | _ => false
                              end) (combine (c_jobs c) (x_map c))
@@ -213,7 +296,7 @@ Definition schema_sound (c : case_C16) : bool :=
   | SchCall tab =>
       Nat.eqb (List.length (x_map c)) (List.length (c_jobs c)) &&
       forallb (fun jd => match alookup (normpath (snd jd)) tab with
-                         | Some (Some sp) => sub_sp sp (j_sp (fst jd))
+                         | Some (Some sp) => rel sp (j_sp (fst jd))
                          | Some None => true
                          | None => false
                          end) (combine (c_jobs c) (x_map c)) &&
@@ -222,6 +305,13 @@ Definition schema_sound (c : case_C16) : bool :=
                         | Some _ => existsb (fun d => str_eqb (normpath d) (fst e)) (x_map c)
                         end) tab
   end.
+Definition schema_sound (c : case_C16) : bool := schema_rel sub_sp c.
+(* [schema_checkable] (round 4): for every exported job path the schema declines, agrees (as above), or
+   yields a state point that Python compares UNEQUAL to the job's - a contradiction the consistency
+   check against the state point file can see.  Only the schemas that are wrong in TYPE alone (1.0 for 1,
+   True for 1: equal in Python, different id) stay outside. *)
+Definition schema_checkable (c : case_C16) : bool :=
+  schema_rel (fun sp jsp => sub_sp sp jsp || negb (py_eq sp jsp)) c.
 
 (* "the same job ids with identical state points": every job directory the import leaves behind carries
    the id of the state point its signac_statepoint.json holds (no job under a contradicting id) *)
@@ -237,10 +327,12 @@ Definition h_ids (c : case_C16) : bool :=
                     | _, _ => true
                     end) (i_dst c).
 
-(* "or the call raises before any job has been copied": with the state point files in place, a sound
-   schema either imports or raises while the (empty) project is still empty *)
+(* "or the call raises before any job has been copied": with the state point files in place, the import
+   either completes or raises while the (empty) project is still empty - for every schema that is sound
+   or whose error the consistency check can see (a callable that is wrong for one directory, a schema
+   string typed after another job) *)
 Definition h_import_raise_clean (c : case_C16) : bool :=
-  negb (i_run c) || is_none (i_exn c) || negb (schema_sound c) || c_strip c
+  negb (i_run c) || is_none (i_exn c) || negb (schema_checkable c) || c_strip c
   || negb (is_none (hd_error (c_pre c))) || fs_eqb (i_dst c) (dst_init (c_pre c)).
 
 Definition holds_C16 (c : case_C16) : bool :=
@@ -249,15 +341,50 @@ Definition holds_C16 (c : case_C16) : bool :=
 
 Definition violation_C16 (c : case_C16) : bool := negb (holds_C16 c).
 
-(* no known-finding classifier is left: every defect found for C16 (F6, F7, F15, F18, F19, F20, F20',
-   F21) has been repaired in /repo; any violation is reported as such *)
 Definition is_root (d : str) : bool := is_none (hd_error (loc_of d)).
+
+(* ---- known-finding classifiers (round 4; the earlier defects F6 ... F21 are repaired in /repo).
+   Each names an input class AND requires that the one clause the defect breaks is the only one that
+   fails, so any other violation on such an input is still reported.
+   tag 1: the import schema is a string that keeps literal text after its last field and describes the
+          exported layout; _convert_schema_path_to_regex drops that text, the parent directory is taken
+          for the job directory (files one level too deep) - only the round-trip clause fails.
+   tag 2: directory origin, state point files in place, a schema that is wrong (in value) for some
+          exported directory: _analyze_directory_for_import validates lazily, so the error is raised
+          after earlier directories have been copied - only "raises before any job has been copied" fails. *)
+Definition others_hold_but (k : N) (c : case_C16) : bool :=
+  h_src c && h_export_contained c && h_unique c && h_leafnode c && h_raise_clean c
+  && h_import_contained c && h_no_overwrite c && h_ids c
+  && (N.eqb k 1 || h_roundtrip c) && (N.eqb k 2 || h_import_raise_clean c).
+Definition known1_C16 (c : case_C16) : bool :=
+  match c_schema c with
+  | SchStr text => trailing_literal text && faithful_by_layout c text
+                   && negb (h_roundtrip c) && others_hold_but 1 c
+  | _ => false
+  end.
+Definition known2_C16 (c : case_C16) : bool :=
+  match c_kind c, c_schema c with
+  | KDir, SchStr _ | KDir, SchCall _ =>
+      negb (c_strip c) && negb (schema_sound c) && schema_checkable c
+      && negb (is_none (i_exn c)) && negb (h_import_raise_clean c) && others_hold_but 2 c
+  | _, _ => false
+  end.
+Definition known_tag_C16 (c : case_C16) : N :=
+  if known1_C16 c then 1%N else if known2_C16 c then 2%N else 0%N.
+Fixpoint known_aux_C16 (cs : list case_C16) (i : N) : list N :=
+  match cs with
+  | [] => []
+  | c :: r =>
+      let t := known_tag_C16 c in
+      if N.eqb t 0 then known_aux_C16 r (N.succ i) else (i * 100 + t)%N :: known_aux_C16 r (N.succ i)
+  end.
 
 Definition mismatches_C16 (cs : list case_C16) : list N := indices_where mismatch_C16 cs.
 Definition violations_C16 (cs : list case_C16) : list N := indices_where violation_C16 cs.
+Definition known_C16 (cs : list case_C16) : list N := known_aux_C16 cs 0%N.
 
 (* diagnostics used while developing / in replays: which clauses fail, which part mismatches *)
 Definition diag_C16 (c : case_C16) : list bool :=
   [mismatch_export c; mismatch_import c; h_src c; h_export_contained c; h_unique c; h_leafnode c;
    h_raise_clean c; h_import_contained c; h_no_overwrite c; h_roundtrip c; schema_faithful c;
-   h_ids c; h_import_raise_clean c; schema_sound c].
+   h_ids c; h_import_raise_clean c; schema_sound c; schema_checkable c; known1_C16 c; known2_C16 c].
